@@ -353,7 +353,7 @@ func rawDeclFamily(c *core.Ctx) {
 		c.Oblige("correspondence", "script/css templates in a non-UTF-8 file are accepted by parse+generate", false, err.Error())
 		return
 	}
-	prog, err := probe.Build([]probe.File{f}, tgen.Helpers)
+	prog, err := buildProbe([]probe.File{f})
 	if err != nil {
 		c.Fail("property", "generated code compiles", "", exact(map[string]any{"build_log": trunc(prog.BuildLog, 3000), "first_source": src}), "go build of code generated from an accepted non-UTF-8 file with script and css templates failed")
 		prog.Close()
@@ -364,7 +364,7 @@ func rawDeclFamily(c *core.Ctx) {
 	for k := 0; k < n; k++ {
 		pc = append(pc, probe.Case{Template: fmt.Sprintf("NDT%d", k), Args: tgen.Args{S0: "a"}})
 	}
-	res, err := prog.Run(pc)
+	res, err := runProbe(c, prog, pc, func(int) string { return src })
 	if err != nil {
 		c.Oblige("correspondence", "script/css templates in a non-UTF-8 file: probe program runs", false, err.Error())
 		return
